@@ -1180,6 +1180,27 @@ func (e *Exec) builtin(fr *frame, b *ssa.Builtin, args []Value, call *ssa.Call) 
 		return r
 	case "print", "println":
 		return nil
+	case "clear":
+		switch x := args[0].(type) {
+		case *Map:
+			if x != nil {
+				e.onAccess(&x.cell, true)
+				for _, en := range x.ents {
+					en.deleted = true
+				}
+				x.ents = nil
+			}
+			return nil
+		case Slice:
+			if st, ok := call.Call.Args[0].Type().Underlying().(*types.Slice); ok {
+				for i := 0; i < x.len; i++ {
+					c := x.arr.elems[x.off+i]
+					e.onAccess(c, true)
+					c.v = e.zero(st.Elem())
+				}
+				return nil
+			}
+		}
 	}
 	panic(unsupported("builtin " + b.Name()))
 }
